@@ -15,7 +15,7 @@ SENSE = {
     "t4": bytes([0x72, 4, 0x44, 0x00]),
 }
 ROUTES = ("direct", "direct_prevraw", "facade_execute", "facade_execute_prevraw", "facade_tur", "facade_inquiry", "facade_ata",
-          "facade_tur_after_ata", "facade_inquiry_after_ata")
+          "facade_tur_after_ata", "facade_inquiry_after_ata", "direct_with", "facade_with")
 
 
 class World(object):
@@ -108,6 +108,29 @@ def one(w, tr, prev, st, s, raw, route):
     """set up the history (the command object carries `prev`), then the execution under test"""
     dev = w.device(tr)
     try:
+        if route.endswith("_with"):
+            # the caller uses the device / the facade as a context manager, and on the way out the iSCSI binding
+            # reports that its disconnect failed (-1): the error raised inside the block still reaches the caller
+            import harness.fakes.iscsi as fake_iscsi
+            cmd = cmds.klass("TestUnitReady")(dev.opcodes.TEST_UNIT_READY)
+            facade = None
+            if route == "facade_with":
+                w.state.update(st=0, s=None)
+                facade = mod("pyscsi.pyscsi.scsi").SCSI(dev)
+            w.state.update(st=st, s=SENSE[s])
+
+            def go():
+                fake_iscsi.DISCONNECT_RC = -1
+                try:
+                    if facade is None:
+                        with dev:
+                            dev.execute(cmd, en_raw_sense=raw)
+                    else:
+                        with facade as f:
+                            f.execute(cmd, en_raw_sense=raw)
+                finally:
+                    fake_iscsi.DISCONNECT_RC = 0
+            return observe(go, lambda: cmd)
         if route.startswith("direct") or route.startswith("facade_execute"):
             # the same command object is executed twice; the first execution may have asked for raw sense
             if route.startswith("direct"):
@@ -244,6 +267,8 @@ def run(chk, replay=None):
                 if (route != "direct" or c["prev"] != "none") and c["st"] not in rep and chk.quick:
                     continue
                 if route != "direct" and c["st"] not in rep:
+                    continue
+                if route.endswith("_with") and c["prev"] != "none":
                     continue
                 if route.endswith("prevraw") and c["prev"] == "none":
                     continue
